@@ -182,6 +182,15 @@ class RecDevice:
         return None
 
 
+class ChannelRec:
+    """a value of ChannelManager.channels[handle] reduced to what the link-loss clean-up depends on: its source CID and
+    its class (`is_classic`: a ClassicChannel, else a LeCreditBasedChannel); abort() is a recorded callback"""
+
+    def __init__(self, source_cid=0, is_classic=False):
+        self.source_cid = source_cid
+        self.is_classic = is_classic
+
+
 class KeyView:
     """a dict seen at ONE fixed key (`key`): whether the key is present and, if so, its value.  Stands in for a table
     `{connection handle: ...}` in a function that only ever touches the entry of one handle; any access with another
